@@ -14,6 +14,7 @@ from .. import astutil as U
 from ..formula import ToSympy, single_defs, inline
 from ..source import AnalysisError, AnchorMissing
 from . import C09
+from . import kwn as K
 
 NR = 'kawin/precipitation/NucleationRate.py'
 PP = 'kawin/precipitation/PrecipitationParameters.py'
@@ -75,19 +76,19 @@ def extract(repo):
     # (a) critical radius (bulk/dislocation branch)
     fn = repo.func(NR, 'nucleationBarrier')
     prop = None
-    for s in ast.walk(fn):
-        if isinstance(s, ast.Assign) and isinstance(s.targets[0], ast.Name) and s.targets[0].id == 'RcritProposal' and 'thermoFactor' in U.src(s.value):
-            dGv = sp.Symbol('dG_v', positive=True)
+    prop_e, prop_st, _has_min = K.bulk_rcrit_proposal(fn)
+    if prop_e is not None:
+        dGv = sp.Symbol('dG_v', positive=True)
 
-            def atoms3(e):
-                if isinstance(e, ast.Call) and (U.call_name(e) or '').endswith('thermoFactor'):
-                    return f
-                if U.chain(e) == ('precipitate', 'gamma'):
-                    return gam
-                if isinstance(e, ast.Subscript) and isinstance(e.value, ast.Name) and e.value.id == 'volumeDrivingForce':
-                    return dGv
-                return None
-            prop = (ToSympy(atoms=atoms3).tr(s.value), dGv, s)
+        def atoms3(e):
+            if isinstance(e, ast.Call) and (U.call_name(e) or '').endswith('thermoFactor'):
+                return f
+            if U.chain(e) == ('precipitate', 'gamma'):
+                return gam
+            if isinstance(e, ast.Subscript) and isinstance(e.value, ast.Name) and e.value.id == 'volumeDrivingForce':
+                return dGv
+            return None
+        prop = (ToSympy(atoms=atoms3).tr(prop_e), dGv, prop_st)
     if prop is None:
         raise AnalysisError('nucleationBarrier: critical-radius proposal not found')
     out['Rcrit'] = prop
